@@ -85,6 +85,11 @@ func fenceMatch(
 	if details.obj == nil {
 		return nil
 	}
+	if details.command == "expire" || details.command == "persist" {
+		// the object stays where it is: a changed deadline is not a movement
+		// (without a previous position it would be reported as entering)
+		return nil
+	}
 	if !multiGlobMatch(fence.globs, details.obj.ID()) {
 		return nil
 	}
